@@ -35,7 +35,7 @@ fn extrapolate_body(s: &mut Src, beyond: bool) {
     let q = s.bits(31);
     assume((q > known) == beyond);
     assert!(na(&ext, q) <= na(&orig, q));
-    cover!(q >= 6 && na(&ext, q) < na(&orig, q), "extrapolation tightens a bound");
+    cover!(q >= 3 && q > d[1] && known > d[1], "query beyond the original prefix, inside the extrapolated one");
 }
 harness!(c13_extrapolate_within, 12, |s| { extrapolate_body(s, false); });
 harness!(c13_extrapolate_beyond_b, 12, |s| { extrapolate_body(s, true); });
@@ -99,10 +99,10 @@ harness!(c13_extrapolate_with_bound, 8, |s| {
 // symbolic, on the object or on a clone) makes the vector length symbolic and
 // CBMC runs out of memory (> 23 GB for arguments <= 3), DESIGN.md section 8.
 // The prefix is one of a few concrete shapes, the query argument symbolic.
-fn single_query_body(s: &mut Src, d0: u64, d1: u64, via_clone: bool) {
+fn single_query_body(s: &mut Src, d0: u64, d1: u64, via_clone: bool, xmask: u8) {
     let d = [d0, d1, 0, 0];
     let cached = ExtrapolatingCurve::new(mk_curve(&d, 2));
-    let x = s.bits(7);
+    let x = s.bits(xmask);
     let got = if via_clone {
         // the clone shares the cache
         let c2 = cached.clone();
@@ -113,12 +113,12 @@ fn single_query_body(s: &mut Src, d0: u64, d1: u64, via_clone: bool) {
     let mut eager = mk_curve(&d, 2);
     eager.extrapolate(Duration::from(x + 1));
     assert!(got == na(&eager, x));
-    cover!(x >= 6 && got >= 3, "query at delta >= 6");
+    cover!(x as u8 == xmask && got >= 3, "query at the largest delta");
 }
-harness!(c13_cache_1_2, 12, |s| { single_query_body(s, 1, 2, false); });
-harness!(c13_cache_0_1, 12, |s| { single_query_body(s, 0, 1, false); });
-harness!(c13_cache_2_5, 12, |s| { single_query_body(s, 2, 5, false); });
-harness!(c13_cache_1_3_clone, 12, |s| { single_query_body(s, 1, 3, true); });
+harness!(c13_cache_1_2, 12, |s| { single_query_body(s, 1, 2, false, 7); });
+harness!(c13_cache_0_1, 12, |s| { single_query_body(s, 0, 1, false, 3); });
+harness!(c13_cache_2_5, 12, |s| { single_query_body(s, 2, 5, false, 7); });
+harness!(c13_cache_1_3_clone, 12, |s| { single_query_body(s, 1, 3, true, 7); });
 
 pub fn register(t: &mut Table) {
     reg!(t;
